@@ -173,6 +173,7 @@ def generate():
         "-- GENERATED by props/c09_gen.py by tracing bempp_cl/api/space/shapesets.py -- do not edit",
         "import Mathlib.Algebra.Ring.Defs",
         "namespace BemppVerif.Gen.SpaceShapes",
+        "set_option linter.unusedVariables false",
         "variable {K : Type} [CommRing K]",
         "/-- `_p0_shapeset_evaluate` -/",
         f"def p0Shape (xi eta : K) : K := {_term(sh['p0'][0])}",
